@@ -625,14 +625,14 @@ impl<'a, 'b> GsubHandler<'a, 'b> {
             // We didn't touch any glyphs
             return None;
         }
-        let range = self.min_gid..self.max_gid + 1;
+        // the lookups may name glyphs beyond the glyph count
+        let len = self.glyph_styles.len();
+        let range = self.min_gid.min(len)..(self.max_gid + 1).min(len);
         if self.need_blue_substs {
             // We didn't find any substitutions for our blue strings so
             // we ignore the style. Clear the GSUB marker for any touched
             // glyphs
-            // the lookups may name glyphs beyond the glyph count
-            let len = self.glyph_styles.len();
-            for glyph in &mut self.glyph_styles[range.start.min(len)..range.end.min(len)] {
+            for glyph in &mut self.glyph_styles[range] {
                 glyph.clear_from_gsub();
             }
             None
